@@ -9,9 +9,12 @@ from vlib import Case, run_parallel
 RULE = ("end-to-end through the real binary (dev + release profiles): random pcap streams (0-40 packets, both magics, varied snaplen/linktype/version/thiszone/sigfigs) piped to "
         "generated filter programs (patterns over NP/PL/WL/TSS/TSU and globals, actions updating globals and filter-local variables, several filters, action-less and pattern-less "
         "filters, with/without an end filter), with and without -s; compared with FilterSpec (Lean): which packets are written, in which order and how often, that the output "
-        "global header equals the input's, what the program prints (stdout under -s, stderr otherwise) incl. NP in the end filter; non-trivial = at least one packet selected or printed")
+        "global header equals the input's, what the program prints (stdout under -s, stderr otherwise) incl. NP in the end filter; plus fixed programs with a filter that fails at run time "
+        "on packet k (in an action and in a pattern; on the first packet; after action-less filters that already selected the packet), judged against the stream-loop model of "
+        "Props/C20.lean computed by the generator: the packets written before the failure stay written (incl. the failing packet's own earlier selections), nothing later runs, "
+        "the end filter still runs once with NP = k; non-trivial = at least one packet selected or printed")
 ASSUMPTIONS = ["packet *field* reads/assignments inside filters are covered by C15-C17; FilterSpec treats packets as their four pcap header numbers",
-               "after a runtime error inside a filter the statement leaves the behaviour open (the oracle is silent)",
+               "after a runtime error inside a filter FilterSpec is silent; the failing path is judged on fixed programs against the stream loop of Props/C20.lean (streamLoop/onPacket), mirrored in stream_loop() below",
                "each packet's payload carries its index so that output records can be mapped back to input packets"]
 BINARY_PROFILES = ["dev", "release"]
 MAGIC_US, MAGIC_NS = 0xA1B2C3D4, 0xA1B23C4D
@@ -102,6 +105,79 @@ def long_stream(rng, n):
     return hdr, pkts, hdr + body
 
 
+# ---- the failing path: a runtime error in a filter stops the stream.  Each filter is given with its meaning
+# (np, caplen) -> True (selects) / False / None (fails); `end` as a function of (NP seen by end, packets read without failure).
+FAILING_PROGRAMS = [
+    # the packet the failing action runs on has already been selected by the filter before it
+    ("@ true\n@ NP == 3 { 1 / 0; }\n@ NP >= 2\n@ end { eprintln(\"end {}\", NP); }\n",
+     [lambda np, pl: True, lambda np, pl: None if np == 3 else False, lambda np, pl: np >= 2], lambda npe: f"end {npe}\n"),
+    # failure on the very first packet, before anything is selected; no end filter
+    ("@ NP == 1 { 1 / 0; }\n@ true\n",
+     [lambda np, pl: None if np == 1 else False, lambda np, pl: True], None),
+    # a counting action, an action-less filter, then an index error on packet 4; one more action-less filter that must not run on it
+    ("let c = 0;\n@ true { c = c + 1; }\n@ NP % 2 == 0\n@ NP == 4 { let x = [1]; x[5]; }\n@ true\n@ end { eprintln(\"end {} {}\", NP, c); }\n",
+     [lambda np, pl: False, lambda np, pl: np % 2 == 0, lambda np, pl: None if np == 4 else False, lambda np, pl: True], lambda npe: f"end {npe} {npe}\n"),
+    # the failure is in a pattern (division by zero when NP == 3)
+    ("@ true\n@ 1 / (3 - NP) > 0\n@ true\n@ end { eprintln(\"end {}\", NP); }\n",
+     [lambda np, pl: True, lambda np, pl: None if np == 3 else int(1 / (3 - np)) > 0, lambda np, pl: True], lambda npe: f"end {npe}\n"),
+]
+
+
+def stream_loop(filters, pkts):
+    """streamLoop/onPacket of lean/P2sh/Props/C20.lean: (selected numbers in output order, NP for `end`, failed?)"""
+    sel, count = [], 1
+    for (_, _, cap, _, _) in pkts:
+        for f in filters:
+            r = f(count, cap)
+            if r is None:
+                return sel, count, True      # what was selected so far stays; NP stays at this packet
+            if r:
+                sel.append(count)
+        count += 1
+    return sel, count - 1, False
+
+
+def failing_cases(ctx, asts_of):
+    out = []
+    items = []
+    for src, filters, end in FAILING_PROGRAMS:
+        hdr, pkts, data = long_stream(ctx.rng, 6)
+        items.append((src, filters, end, hdr, pkts, data))
+    asts = asts_of([s for s, *_ in items])
+    for src, filters, end, hdr, pkts, data in items:
+        sel, npe, failed = stream_loop(filters, pkts)
+        k = ",".join(f"{a}:{b}:{c}:{d}" for a, b, c, d, _ in pkts)
+        line = f"filter S=0 K={k} @@ {asts.get(src, '(perr)')}"
+        for prof in ("dev", "release"):
+            out.append(Case(line, ("failing-filter", prof), extra={"src": src, "hdr": hdr.hex(), "data": data.hex(), "recs": [r.hex() for *_, r in pkts], "skip": False, "prof": prof,
+                                                                  "fail": True, "expect_sel": sel, "expect_failed": failed, "expect_end": end(npe) if end else None}))
+    return out
+
+
+def spec_override(c):
+    e = c.extra or {}
+    if e.get("fail"):
+        return "m sel=" + ",".join(map(str, e["expect_sel"])) + " hdr=t out="
+    return c.spec
+
+
+def judge(c):
+    e = c.extra or {}
+    if not e.get("fail") or not c.impl.startswith("sel="):
+        return True
+    got = dict(t.split("=", 1) for t in c.impl.split(" ") if "=" in t)
+    try:
+        err = bytes.fromhex(got.get("err", "")).decode("utf-8", "replace")
+    except ValueError:
+        return False
+    if e["expect_failed"] and err.count("Runtime error") != 1:
+        return False
+    end = e["expect_end"]
+    if end is None:
+        return "end " not in err
+    return err.endswith(end) and err.count("end ") == 1      # the end filter ran exactly once, after the failure, with NP at the failing packet
+
+
 def cases(ctx):
     rng = ctx.rng
     items = []
@@ -119,7 +195,15 @@ def cases(ctx):
         for (s, *_), o in zip(items, outs):
             i = o.find("(prog")
             asts[s] = o[i:] if (o.startswith("ast ") and " errs=0 " in o[:i]) else "(perr)"
-    out = []
+    def asts_of(srcs):
+        res = {}
+        if ctx.harness:
+            outs = run_parallel(ctx.harness, ["parse " + hx(s) for s in srcs], timeout=60)
+            for s, o in zip(srcs, outs):
+                i = o.find("(prog")
+                res[s] = o[i:] if (o.startswith("ast ") and " errs=0 " in o[:i]) else "(perr)"
+        return res
+    out = failing_cases(ctx, asts_of)
     for src, hdr, pkts, data, skip in items:
         k = ",".join(f"{a}:{b}:{c}:{d}" for a, b, c, d, _ in pkts)
         line = f"filter S={1 if skip else 0} K={k} @@ {asts.get(src, '(perr)')}"
@@ -145,7 +229,7 @@ def run_one(ctx, scratch, idx, c):
         return "PANIC"
     if p.returncode != 0:
         return f"ABORT({p.returncode})"
-    if "Runtime error" in err or "compile error" in err or "parse errors" in err:
+    if ("Runtime error" in err and not e.get("fail")) or "compile error" in err or "parse errors" in err:
         return "rterr-or-cerr " + hx(err[:80])
     out = p.stdout
     if e["skip"]:
